@@ -479,6 +479,77 @@ def p_poly(p, pts, crs):
     return True, f"returned={got[:10]}"
 
 
+def shape_geom(parts):
+    """parts = list of (outer ring, [hole rings]) -> shapely Polygon / MultiPolygon"""
+    from shapely.geometry import MultiPolygon, Polygon
+    polys = [Polygon(list(o), [list(h) for h in hs]) for o, hs in parts]
+    return polys[0] if len(polys) == 1 else MultiPolygon(polys)
+
+
+def p_shape(p, parts):
+    """non-convex queries (holes, U/L shapes, far-apart multi-parts) at tile scale: a tile is returned iff its footprint
+    overlaps the query; judged with shapely intersection area on footprints computed from the grid parameters in
+    Fractions (tiles only touching the query, or overlapping by less than 1e-9 of a tile, are not judged)"""
+    from shapely.geometry import box
+    from odc.geo.geom import Geometry
+    g = make_grid(p)
+    sh = shape_geom(parts)
+    if not sh.is_valid or sh.area == 0:
+        return True, "degenerate shape (not judged)"
+    got = [tuple(i) for i, _ in g.tiles_from_geopolygon(Geometry(sh, CRS))]
+    if len(set(got)) != len(got):
+        return False, f"duplicates in {got[:12]}"
+    (ox_, szx, dx_), (oy_, szy, dy_) = axis_of(p, "x"), axis_of(p, "y")
+    x0, y0, x1, y1 = (F(v) for v in sh.bounds)
+
+    def idx_range(lo, hi, o, sz, d):
+        a, b = (lo - o) / sz, (hi - o) / sz
+        ks = range(a.numerator // a.denominator - 1, b.numerator // b.denominator + 2)
+        return [(d * k, o + k * sz, o + (k + 1) * sz) for k in ks]     # index, lower edge, upper edge
+    area_t = float(szx * szy)
+    seen = set()
+    for ix, xa, xb in idx_range(x0, x1, ox_, szx, dx_):
+        for iy, ya, yb in idx_range(y0, y1, oy_, szy, dy_):
+            seen.add((ix, iy))
+            t = box(float(xa), float(ya), float(xb), float(yb))
+            a = sh.intersection(t).area
+            if a > 1e-9 * area_t and (ix, iy) not in got:
+                return False, f"tile {(ix, iy)} overlaps the query by {a / area_t:.4f} of a tile but is missing: returned {len(got)} tiles {got[:8]}"
+            if (ix, iy) in got and sh.distance(t) > 1e-6 * float(min(szx, szy)):
+                return False, (f"tile {(ix, iy)} [{float(xa)},{float(xb)}]x[{float(ya)},{float(yb)}] is {sh.distance(t) / float(min(szx, szy)):.3f} tile sizes away "
+                               f"from the query (disjoint) but is returned ({len(got)} tiles returned)")
+    far = [i for i in got if i not in seen]
+    if far:
+        return False, f"tiles far from the query returned: {far[:6]}"
+    return True, f"{len(got)} tiles"
+
+
+def gen_shape(rng, p):
+    """non-convex shapes in units of the tile size, vertices on an eighth-of-a-tile lattice offset from tile edges"""
+    (ox_, szx, _), (oy_, szy, _) = axis_of(p, "x"), axis_of(p, "y")
+    kx, ky = rng.randint(-3, 3), rng.randint(-3, 3)
+    off = F(rng.choice([1, 2, 3, 5]), 8)
+
+    def P(u, v):
+        return (float(ox_ + (kx + off + F(u)) * szx), float(oy_ + (ky + off + F(v)) * szy))
+    kind = rng.choice(["donut", "U", "L", "multi", "multi", "donut"])
+    if kind == "donut":
+        W = rng.choice([5, 6, 7])
+        w = F(rng.choice([3, 5, 9]), 8)        # ring width < 1.25 tiles: at least one whole tile lies in the hole
+        outer = [P(0, 0), P(W, 0), P(W, W), P(0, W)]
+        hole = [P(w, w), P(W - w, w), P(W - w, W - w), P(w, W - w)]
+        return [(outer, [hole])]
+    if kind == "U":
+        W, H, a = rng.choice([5, 6]), rng.choice([4, 5]), F(rng.choice([3, 5, 7]), 8)
+        return [([P(0, 0), P(W, 0), P(W, H), P(W - a, H), P(W - a, a), P(a, a), P(a, H), P(0, H)], [])]
+    if kind == "L":
+        W, a = rng.choice([5, 6, 7]), F(rng.choice([3, 5, 7]), 8)
+        return [([P(0, 0), P(W, 0), P(W, a), P(a, a), P(a, W), P(0, W)], [])]
+    ax, ay = rng.choice([4, 6, 8]), rng.choice([3, 5, 7])
+    e = F(rng.choice([2, 3, 5]), 8)
+    return [([P(0, 0), P(e, 0), P(e, e), P(0, e)], []), ([P(ax, ay), P(ax + e, ay), P(ax + e, ay + e), P(ax, ay + e)], [])]
+
+
 def p_sample(p, ix, iy):
     """a grid rebuilt from tile (ix,iy) has the same footprint for every index"""
     from odc.geo.gridspec import GridSpec
@@ -515,7 +586,7 @@ def p_web(z, npix):
     return True, f"zoom {z}: {n} tiles per side"
 
 
-PREDICATES = {"bin": p_bin, "point": p_point, "neigh": p_neigh, "tiles": p_tiles, "poly": p_poly,
+PREDICATES = {"bin": p_bin, "point": p_point, "neigh": p_neigh, "tiles": p_tiles, "poly": p_poly, "shape": p_shape,
               "sample": p_sample, "web": p_web}
 
 
@@ -540,6 +611,8 @@ def fix_args(name, args):
     args = list(args)
     if name == "poly":
         args[1] = [tuple(pt) for pt in args[1]]
+    if name == "shape":
+        args[1] = [([tuple(q) for q in o], [[tuple(q) for q in h] for h in hs]) for o, hs in args[1]]
     return args
 
 
@@ -591,6 +664,10 @@ def search(out, tier):
             a = (pts[1][0] - pts[0][0]) * (pts[2][1] - pts[0][1]) - (pts[2][0] - pts[0][0]) * (pts[1][1] - pts[0][1])
             if a != 0:
                 run("poly", p, pts, CRS)
+    # non-convex queries at tile scale: holes, U/L shapes, far-apart multi-parts
+    for gi in range(60 if not big else 500):
+        p = gen_params(rng, small=(gi % 3 != 0))
+        run("shape", p, gen_shape(rng, p))
     # polygons given in another CRS (oracle composition: pyproj + shapely), coarse grids in web-mercator metres
     for _ in range(12 if not big else 80):
         p = (rng.choice([50, 100]), rng.choice([50, 100]), -1000.0 * rng.choice([1, 2]), 1000.0 * rng.choice([1, 2]),
@@ -612,7 +689,9 @@ def run(out, tier, scratch):
                 "arguments; cases whose float evaluation could round across a tile edge are discarded by a generator-side "
                 "filter that looks at the inputs only (counted as generator_escapes). non-trivial = valid construction / "
                 "non-empty result; distinct = distinct canonical (operation, arguments). "
-                "search: the clauses of the property evaluated on the implementation in Fraction arithmetic")
+                "search: the clauses of the property evaluated on the implementation in Fraction arithmetic; polygon queries also with "
+                "non-convex shapes at tile scale (holes, U/L shapes, far-apart multi-parts) judged by shapely intersection area / distance "
+                "against tile footprints computed from the grid parameters")
     out.assumptions += [
         "exact-rational model of binary64: theorems are about exact arithmetic; the correspondence is exact on the dyadic domain",
         "oracle: shapely disjoint(polygon, tile extent) and the CRS conversion + bounding box of query polygons "
